@@ -190,12 +190,18 @@ def _history_sync(rng, n_msgs, p_msg=0.62):
         s.pump(40)
         init = list(spa.struct.status_block)
         if bytes(init) != sim_struct.status_block:
-            s.spa.refresh()
-            s.pump(80)
+            s.next_periodic_refresh()
             init = list(spa.struct.status_block)
         w = _Watch(spa.struct, lambda: "engine")
         for i in range(n_msgs):
             r = rng.random()
+            if not s.settle():
+                raise env.MachineryError("threaded session never became quiescent: " + repr({
+                    "pending": s.transfer_pending(), "inbox": len(s.sock.inbox), "t": s.w2.clock.t,
+                    "due": [(round(r["wake"] - s.w2.clock.t, 2), r["done"]) for r in s.w2.coop.recs],
+                    "handlers": [(type(h).__name__, getattr(h, "_retry_count", None), bool(h.should_remove_handler)) for h in s.spa._receive_handlers]}))
+            for x in w.take():
+                ev.append({"k": "refresh", "off": x["pos"], "data": x["data"]})
             nsent = len(s.sock.wire)
             if r < p_msg:
                 ch = _gen_message(rng, hot)
@@ -214,8 +220,8 @@ def _history_sync(rng, n_msgs, p_msg=0.62):
                 sim_struct.set_status_block(blk[:pos] + bytes([v]) + blk[pos + 1:])
                 ev.append({"k": "silent", "pos": pos, "v": v})
             else:
-                spa.refresh()
-                s.pump(80)
+                if not s.next_periodic_refresh():
+                    raise env.MachineryError("the ping thread did not refresh within 200 s")
                 inst = w.take()
                 for x in inst:
                     ev.append({"k": "refresh", "off": x["pos"], "data": x["data"]})
